@@ -39,7 +39,7 @@ static void arm_case_timer(bool on) {
 
 // Per-case leak check (LeakSanitizer, present in the asan variant only): a case that leaves unreachable heap memory behind fails.
 extern "C" int __lsan_do_recoverable_leak_check(void) __attribute__((weak));
-static bool g_leakcheck = true;
+static bool g_leakcheck = true; static bool g_leak_fail = false;
 static bool case_leaked() { return g_leakcheck && __lsan_do_recoverable_leak_check && __lsan_do_recoverable_leak_check() != 0; }
 
 static void dump_map(FILE *f, const char *name, const std::map<std::string, long> &m) {
@@ -90,7 +90,7 @@ int main(int argc, char **argv) {
       std::vector<uint32_t> w = *headgen;
       { std::vector<uint32_t> tl = *tailgen; w.insert(w.end(), tl.begin(), tl.end()); }
       // bounded shrinking: once the probe budget is spent every further shrink candidate "passes" at once, which ends the search
-      if (g_failed_once && g_shrink_evals >= shrink_max) return;
+      if (g_failed_once && (g_shrink_evals >= shrink_max || g_leak_fail)) return;   // a leak stays visible to LeakSanitizer for the rest of the process: later cases cannot be judged, keep the original tape
       save_current(w);
       Tape t(w); Report local;
       Report *rp = g_failed_once ? &local : &g_rep;   // cases run while shrinking are not counted as coverage
@@ -98,7 +98,7 @@ int main(int argc, char **argv) {
       arm_case_timer(true);
       bool held = prop_run(t, *rp);
       arm_case_timer(false);
-      if (held && case_leaked()) held = rp->fail("the case leaked heap memory (LeakSanitizer report in the worker log): a clear function did not release everything");
+      if (held && case_leaked()) { g_leak_fail = true; held = rp->fail("the case leaked heap memory (LeakSanitizer report in the worker log): a clear function did not release everything"); }
       if (!held) {
         bool first = !g_failed_once;
         g_lastfail = w; g_lastmsg = rp->fail_msg; g_lastkind = rp->fail_kind; g_failed_once = true;
